@@ -30,6 +30,7 @@ import (
 //verif:override github.com/cosmos/cosmos-sdk/x/distribution/keeper.NewMsgServerImpl -> c02NewMsgServer
 //verif:override (github.com/cosmos/cosmos-sdk/x/distribution/keeper.Keeper).WithdrawDelegationRewards -> c02WithdrawDelegationRewards
 //verif:override (github.com/cosmos/cosmos-sdk/x/staking/keeper.Keeper).GetDelegatorValidators -> c02GetDelegatorValidators
+//verif:override (github.com/cosmos/cosmos-sdk/x/distribution/keeper.Keeper).GetDelegatorWithdrawAddr -> c02GetWithdrawAddr
 //verif:override (github.com/cosmos/cosmos-sdk/x/staking/keeper.Keeper).BondDenom -> c02BondDenom
 //verif:override (github.com/haqq-network/haqq/precompiles/distribution.Precompile).EmitClaimRewardsEvent -> c02EmitClaim
 //verif:override (github.com/haqq-network/haqq/precompiles/distribution.Precompile).EmitWithdrawDelegatorRewardsEvent -> c02EmitWithdraw
@@ -99,6 +100,14 @@ func c02Pay(beneficiary sdk.AccAddress) (sdk.Coins, error) {
 	c02.paid++
 	c02.acted = append(c02.acted, beneficiary.String())
 	return sdk.NewCoins(sdk.NewCoin("aISLM", c02.due)), nil
+}
+
+// the distribution module's own view of withdraw addresses (defaults to the account itself)
+func c02GetWithdrawAddr(k distributionkeeper.Keeper, ctx sdk.Context, delAddr sdk.AccAddress) sdk.AccAddress {
+	if to, ok := c02.withdraw[common.BytesToAddress(delAddr.Bytes())]; ok {
+		return sdk.AccAddress(to.Bytes())
+	}
+	return delAddr
 }
 
 type c02Srv struct{}
